@@ -44,7 +44,7 @@ Packet::Packet(Packet&& other) noexcept
 
 Packet& Packet::operator=(const Packet& other)
 {
-    if (!(*this == other))
+    if (this != &other)
     {
         Packet tmp(other);
         swap(*this, tmp);
